@@ -46,6 +46,12 @@ def gen_cases(tier, seed):
                 continue
             yield "sigverify", {"d": hex(d), "k": hex(k), "msg": msg.hex(), "flag": flag, "pre": pre, "comp": comp,
                                 "mut": m, "bit": rng.randrange(0, 2048), "d2": hex(rng.randrange(1, N))}
+    # a slice of the same tuples through `bits sig --verify` (what a command-line user relies on)
+    for i in range(12 if tier == "quick" else 150):
+        d = rng.randrange(1, N)
+        for m in ["none", "high_s", "flip_s", "flip_msg", "flag_byte", "pub_65_with_02", "swap_key", "infinity_via_pubkey", "pub_parity_flip"]:
+            yield "sigverify", {"via": "cli", "d": hex(d), "k": hex(rng.randrange(1, N)), "msg": rand_bytes(rng, rng.choice([1, 32, 80])).hex(), "flag": [1, 0x83][i % 2],
+                                "pre": i % 2 == 1, "comp": i % 3 != 0, "mut": m, "bit": rng.randrange(0, 2048), "d2": hex(rng.randrange(1, N))}
     # direct ecmath.verify with digests >= n and boundary values
     for i in range(60 if tier == "quick" else 800):
         d = rng.randrange(1, N)
@@ -75,7 +81,7 @@ def gen_cases(tier, seed):
 
 def required(tier):
     return {"sigverify.decided": 1500, "sigverify.expected_accept": 150, "sigverify.expected_reject": 1000,
-            "mut.infinity": 20, "mut.high_s": 50, "mut.pub_65_with_02": 50, "ecverify.decided": 50,
+            "mut.infinity": 20, "sigverify.via_cli": 80, "mut.high_s": 50, "mut.pub_65_with_02": 50, "ecverify.decided": 50,
             "lows.decided": 60, "lows.class.short_complement": 20, "small.decided": 100000,
             "small.expected_accept": 100, "small.class.x_ge_n": 10, "small.class.R_infinity": 100}
 
@@ -217,8 +223,15 @@ def run_case(kind, params, ctx):
             ref_pub = secp.sec1_decode(pub)
             expected = recdsa.verify(ref_pub, zz, strict[0], strict[1]) if strict is not None else None
         try:
-            out = bu.sig_verify(sig, pub, vmsg, msg_preimage=pre)
-            lib_ok = out == "OK"
+            if params.get("via") == "cli":
+                from . import c20
+                rv = c20.run_main(["sig", vmsg.hex(), "--verify", "--signature", sig.hex()] + (["--msg-preimage"] if pre else []) + ["-1x"], c20.rep(pub, "hex"))
+                out = rv["out"].decode(errors="replace").strip() if not rv["exit"] else rv["exit"]
+                lib_ok = out == "OK" and rv["ret"] is None
+                ctx.count("sigverify.via_cli")
+            else:
+                out = bu.sig_verify(sig, pub, vmsg, msg_preimage=pre)
+                lib_ok = out == "OK"
         except ContractViolation:
             raise
         except Exception as e:
